@@ -29,7 +29,7 @@ fn prepare(jobs: usize) -> (std::path::PathBuf, res_world::World) {
         vcommon::machinery(&format!("core imports of the resource world differ from the reference: missing {missing:?}, unexpected {extra:?}"));
     }
     let user = res_world::user_rs(&w);
-    let mut ws = Workspace::new("res");
+    let mut ws = Workspace::new_with("res", true);
     let member = "e3res".to_string();
     // feature `low32`: see guest/ckalloc.rs
     ws.add(&CrateSpec {
@@ -39,12 +39,6 @@ fn prepare(jobs: usize) -> (std::path::PathBuf, res_world::World) {
         extra_files: vec![],
         wit_bindgen_features: vec!["std", "bitflags"],
     });
-    // enable the allocator's low-address arena
-    let manifest = ws.root.join(&member).join("Cargo.toml");
-    let text = std::fs::read_to_string(&manifest).unwrap_or_default();
-    if !text.contains("low32") {
-        crate::build::write_if_different(&manifest, &text.replace("[features]\nstd = []\n", "[features]\nstd = []\nlow32 = []\ndefault = [\"low32\"]\n"));
-    }
     ws.finish_manifest();
     if let Err(e) = ws.build(&[], jobs) {
         vcommon::machinery(&format!("the resource world's chunk crate does not compile:\n{}", tail(&e, 4000)));
@@ -135,6 +129,7 @@ pub fn main() -> ! {
             Outcome::Ok(b) => {
                 let v: Value = serde_json::from_slice(b).unwrap_or(Value::Null);
                 println!("  violations: {}", v["viol"]);
+                println!("  time: {} us", v["us"]);
                 v["viol"].as_array().map(|a| !a.is_empty()).unwrap_or(true)
             }
             other => {
@@ -150,6 +145,10 @@ pub fn main() -> ! {
     let full = std::env::var("E3_FULL").ok().and_then(|s| s.parse().ok()).unwrap_or(full);
     let deep = std::env::var("E3_DEEP").ok().and_then(|s| s.parse().ok()).unwrap_or(deep);
     let (hist, nstates, ntrans) = histories(full, deep);
+    if std::env::var_os("E3_DRY").is_some() {
+        println!("histories={} states={nstates} transitions={ntrans} steps={}", hist.len(), hist.iter().map(|h| h.len()).sum::<usize>());
+        std::process::exit(0);
+    }
     // Histories run in batches inside forked children: a history that ends without a violation
     // leaves the guest clean (everything released, checked), so the next one can reuse the process;
     // after a violation or a crash the rest of the batch continues in a fresh child.
@@ -211,6 +210,9 @@ pub fn main() -> ! {
     let mut samples = vcommon::Samples::new(10);
     let mut steps = 0u64;
     let mut handles = 0u64;
+    let mut guest_us = 0u64;
+    let mut all_us: Vec<u64> = Vec::new();
+
     let mut destroyed = 0u64;
     let mut outcome_kinds: BTreeSet<String> = BTreeSet::new();
     let mut ops_used: BTreeSet<String> = BTreeSet::new();
@@ -230,6 +232,9 @@ pub fn main() -> ! {
             );
             continue;
         }
+        guest_us += r["us"].as_u64().unwrap_or(0);
+        all_us.push(r["us"].as_u64().unwrap_or(0));
+
         handles += r["handles"].as_u64().unwrap_or(0);
         destroyed += r["destroyed"].as_u64().unwrap_or(0);
         let v = r["viol"].as_array().cloned().unwrap_or_default();
@@ -243,6 +248,7 @@ pub fn main() -> ! {
         }
         samples.offer(|| json!({"history": enc, "handles_created": r["handles"], "objects_destroyed": r["destroyed"], "states": r["states"]}));
     }
+    all_us.sort();
     let coverage = json!({
         "states": nstates,
         "transitions": ntrans,
@@ -260,6 +266,8 @@ pub fn main() -> ! {
         "state_definition": "canonical host tables: which guest slots hold an owning handle of the imported resource / of the exported resource, and how many exported objects the host owns",
         "world_functions": nfuncs,
         "handles_created": handles,
+        "time_inside_histories_s": guest_us as f64 / 1e6,
+        "history_time_us": json!({"min": all_us.first(), "median": all_us.get(all_us.len() / 2), "max": all_us.last()}),
         "exported_objects_destroyed": destroyed,
         "distinct_outcomes": outcome_kinds,
         "oracle": "reference handle-table model (own / borrow entries, indices never reused, transfer on lift of own, borrow handles scoped to the export call, destructor when the last owning handle goes): after every step the guest's table holds exactly the owning handles the model says, no borrow handle survives a call, the guest's instrumented Drop count and destruction log equal the model's, every method / borrow reaches the object created under that id, no stale / unknown / wrong-type / borrow-as-own handle use; at the end no handle, no live object and no extra heap block is left; checking allocator faults",
